@@ -159,7 +159,10 @@ def trotx(theta, unit="rad", t=None):
     """
     T = base.r2t(rotx(theta, unit))
     if t is not None:
-        T[:3, 3] = base.getvector(t, 3, 'array')
+        t = base.getvector(t, 3, 'array')
+        if t.dtype == 'O':
+            T = T.astype('O')  # symbolic translation
+        T[:3, 3] = t
     return T
 
 
@@ -193,7 +196,10 @@ def troty(theta, unit="rad", t=None):
     """
     T = base.r2t(roty(theta, unit))
     if t is not None:
-        T[:3, 3] = base.getvector(t, 3, 'array')
+        t = base.getvector(t, 3, 'array')
+        if t.dtype == 'O':
+            T = T.astype('O')  # symbolic translation
+        T[:3, 3] = t
     return T
 
 
@@ -227,7 +233,10 @@ def trotz(theta, unit="rad", t=None):
     """
     T = base.r2t(rotz(theta, unit))
     if t is not None:
-        T[:3, 3] = base.getvector(t, 3, 'array')
+        t = base.getvector(t, 3, 'array')
+        if t.dtype == 'O':
+            T = T.astype('O')  # symbolic translation
+        T[:3, 3] = t
     return T
 
 # ---------------------------------------------------------------------------------------#
